@@ -229,7 +229,90 @@ pub fn emit_zst(out: &mut Out, prop: u32, case: &OCase) {
     out.end(&[ok as u64, t.data().len() as u64]);
 }
 
+/// the same operation on 328-byte elements carrying the same values (kind + 20): the
+/// observation must be the one the u32 run gives (minus row_pair_mut's addresses)
+pub fn emit_big(out: &mut Out, prop: u32, case: &OCase) {
+    let (c, r) = (case.c as usize, case.r as usize);
+    let mut t: TooDee<Big> = TooDee::from_vec(c, r, case.data.iter().map(|x| Big::mk(*x)).collect());
+    let (s, e) = ((case.win.0 as usize, case.win.1 as usize), (case.win.2 as usize, case.win.3 as usize));
+    fn apply_b<V: TooDeeOpsMut<Big> + CopyOps<Big>>(v: &mut V, op: &TOp) {
+        let u = |x: &u64| *x as usize;
+        let bigs = |l: &[u32]| -> Vec<Big> { l.iter().map(|x| Big::mk(*x)).collect() };
+        let kb = |a: &Big| key(&a.v);
+        match op {
+            TOp::Fill(x) => v.fill(Big::mk(*x)),
+            TOp::SwapRows(a, b) => v.swap_rows(u(a), u(b)),
+            TOp::Swap(a, b, c, d) => v.swap((u(a), u(b)), (u(c), u(d))),
+            TOp::SwapCols(a, b) => v.swap_cols(u(a), u(b)),
+            TOp::RowPair(a, b) => { let _ = v.row_pair_mut(u(a), u(b)); }
+            TOp::CopyFromSlice(_, s) => v.clone_from_slice(&bigs(s)),
+            TOp::CopyFromTooDee(_, strided, sc, sr, cells) => {
+                let (sc, sr) = (u(sc), u(sr));
+                if *strided {
+                    let (pc, pr) = (sc + 2, sr + 3);
+                    let mut p = TooDee::init(pc, pr, Big::mk(77));
+                    for y in 0..sr { for x in 0..sc { p[(x + 1, y + 2)] = Big::mk(cells[y * sc + x]); } }
+                    let sv = p.view((1, 2), (1 + sc, 2 + sr));
+                    v.clone_from_toodee(&sv)
+                } else {
+                    let src = TooDee::from_vec(sc, sr, bigs(cells));
+                    v.clone_from_toodee(&src)
+                }
+            }
+            TOp::CopyWithin(..) => {}    // needs Copy: not available for this element type
+            TOp::Translate(a, b) => v.translate_with_wrap((u(a), u(b))),
+            TOp::FlipRows => v.flip_rows(),
+            TOp::FlipCols => v.flip_cols(),
+            TOp::Sort(var, line) => {
+                let l = u(line);
+                match var % 20 {
+                    0 => v.sort_by_row(l, |a, b| kb(a).cmp(&kb(b))),
+                    1 => v.sort_unstable_by_row(l, |a, b| kb(a).cmp(&kb(b))),
+                    2 => v.sort_by_row_key(l, |a| kb(a)),
+                    3 => v.sort_unstable_by_row_key(l, |a| kb(a)),
+                    4 => v.sort_row_ord::<()>(l),
+                    5 => v.sort_unstable_row_ord::<()>(l),
+                    6 => v.sort_by_col::<_>(l, |a, b| kb(a).cmp(&kb(b))),
+                    7 => v.sort_unstable_by_col(l, |a, b| kb(a).cmp(&kb(b))),
+                    8 => v.sort_by_col_key(l, |a| kb(a)),
+                    9 => v.sort_unstable_by_col_key(l, |a| kb(a)),
+                    _ => v.sort_col_ord::<()>(l),
+                }
+            }
+            TOp::SortFuse(..) => {}
+            TOp::SetCell(c, r, x) => v[(u(c), u(r))] = Big::mk(*x),
+            TOp::SetRowCell(c, r, x) => v[u(r)][u(c)] = Big::mk(*x),
+        }
+    }
+    let key_line = |t: &TooDee<Big>| -> Vec<u32> {
+        if let TOp::Sort(var, line) = &case.op {
+            let (x0, y0, nc, nr) = if case.kind == 0 || case.kind == 6 { (0, 0, c, r) } else {
+                let (a, b) = (e.0 - s.0, e.1 - s.1); if a == 0 || b == 0 { (0, 0, 0, 0) } else { (s.0, s.1, a, b) } };
+            let l = *line as usize;
+            if *var % 20 >= 6 { if l < nc { (0..nr).map(|y| t[(x0 + l, y0 + y)].v).collect() } else { vec![] } }
+            else if l < nr { (0..nc).map(|x| t[(x0 + x, y0 + l)].v).collect() } else { vec![] }
+        } else { vec![] }
+    };
+    let before = key_line(&t);
+    let ok = catch_unwind(AssertUnwindSafe(|| match case.kind {
+        0 => apply_b(&mut t, &case.op),
+        2 => { let mut v = t.view_mut(s, e); apply_b(&mut v, &case.op) }
+        _ => { let mut v = TooDeeViewMut::new(c, r, t.data_mut()); apply_b(&mut v, &case.op) }
+    })).is_ok();
+    let after = key_line(&t);
+    let sigma: Vec<u64> = if ok { after.iter().map(|x| before.iter().position(|y| y == x).unwrap_or(9999) as u64).collect() } else { vec![] };
+    let mut inp = vec![DBG as u64, case.kind + 20, case.c, case.r, case.win.0, case.win.1, case.win.2, case.win.3, case.data.len() as u64];
+    inp.extend(case.data.iter().map(|x| *x as u64));
+    encode_op(&case.op, &sigma, &mut inp);
+    if out.want_sample() { out.sample(&format!("C{:02} 328-byte elements {:?}", prop, case)); }
+    out.begin(prop, 6, &inp);
+    let mut obs = vec![ok as u64, t.data().len() as u64];
+    obs.extend(t.data().iter().map(|x| x.val() as u64));
+    out.end(&obs);
+}
+
 pub fn emit(out: &mut Out, prop: u32, case: &OCase) {
+    if case.kind >= 20 { let mut k = case.clone(); k.kind -= 20; return emit_big(out, prop, &k); }
     if case.kind >= 10 { let mut k = case.clone(); k.kind -= 10; return emit_zst(out, prop, &k); }
     let (c, r) = (case.c as usize, case.r as usize);
     let mut t = TooDee::from_vec(c, r, case.data.clone());
@@ -281,6 +364,9 @@ pub fn emit(out: &mut Out, prop: u32, case: &OCase) {
     out.end(&obs);
     // the same call on zero-sized elements (owned, window, slice-constructed view)
     if matches!(case.kind, 0 | 2 | 6) && !matches!(case.op, TOp::SortFuse(..)) && case.data.len() <= 64 { emit_zst(out, prop, case); }
+    // ... and on 328-byte elements (not copy_within: that needs Copy; not the slice / array
+    // copies in their `copy_` form either: they run as `clone_`)
+    if matches!(case.kind, 0 | 2 | 6) && !matches!(case.op, TOp::SortFuse(..) | TOp::CopyWithin(..)) && case.data.len() <= 64 && (case.data.len() + case.c as usize) % 2 == 0 { emit_big(out, prop, case); }
 }
 
 pub fn replay(out: &mut Out, prop: u32, inp: &[u64]) {
